@@ -168,8 +168,10 @@ def proof_step(pid, log, thorough=False):
     res = {"obligations": len(names), "discharged": 0, "failed": [], "axioms": {}, "theorems": names,
            "checker_cmd": f"cd lean && lake build Gleece.Properties.{pid} && lake env lean Gleece/Audit/{pid}.lean"
                           + (f" && lake env leanchecker Gleece.Properties.{pid}" if thorough else "")}
+    # the audit file may pull in further theorem modules shared between properties (Reduce, Serve)
+    extra = [m for m in re.findall(r"^import\s+(\S+)", open(audit_file).read(), flags=re.M) if m != f"Gleece.Properties.{pid}"]
     with Lock("lake"):
-        ok, out = lake_build([f"Gleece.Properties.{pid}"], log)
+        ok, out = lake_build([f"Gleece.Properties.{pid}"] + extra, log)
         res["build_ok"] = ok
         r = run(["lake", "env", "lean", os.path.join("Gleece", "Audit", pid + ".lean")], cwd=LEAN, timeout=1800)
         log.append({"step": "audit", "rc": r.returncode, "out": r.stdout[-6000:]})
